@@ -263,6 +263,10 @@ PROPS["C02"] = {
                                (r"::read_natural::<", ("rank", 0), 5), (r"::read_natural::<", ("rank", 1), 5),
                                (r"::read_natural::<", ("rank", 2), 5)])
                   for k in ("unary", "disconnect1", "word")]
+               + [H("k02_total_word_len6", timeout=2400, mem_gb=24, unwind=5,
+                    unwindset=[BITITER_NEXT_REC, (r"BitIter::<.*>::read_(cmr|fail_entropy)$", "*", 66), (r"^(c01|hcons)::", "*", 72),
+                               (r"::read_natural::<", ("rank", 0), 6), (r"::read_natural::<", ("rank", 1), 6),
+                               (r"::read_natural::<", ("rank", 2), 7)])]
                + [H("k02_total_%s" % k, tiers=("thorough",), timeout=5400, mem_gb=24, core=False, unwind=5,
                     unwindset=[BITITER_NEXT_REC, (r"BitIter::<.*>::read_(cmr|fail_entropy)$", "*", 66), (r"^(c01|hcons)::", "*", 72),
                                (r"::read_natural::<", ("rank", 0), 8), (r"::read_natural::<", ("rank", 1), 8),
